@@ -249,9 +249,9 @@ def _c13() -> SimEngine:
 
 
 def _c14() -> SimEngine:
-    prof = profile(classes=["SimpleTaskPool"], sizes=[3, 4, None, None, None], max_num=6, p_worker_raise=0.15, p_cb_raise=0.05, min_script=1,
+    prof = profile(classes=["SimpleTaskPool"], sizes=[2, 3, 4, None, None, None], max_num=6, p_worker_raise=0.15, p_cb_raise=0.05, min_script=1,
                    stop_rel_share=7, stop_rel=[-3, -2, -2, -1, -1, -1, 0, 1, 2], min_steps=8,
-                   ops={"spawn": 7, "stop": 8, "cancel": 3, "gate": 8, "tick": 6, "flush": 0.8, "cancel_group": 0.3, "close": 0.9, "unlock": 0.4},
+                   ops={"spawn": 7, "stop": 8, "cancel": 3, "gate": 8, "tick": 6, "flush": 0.8, "cancel_group": 1.0, "close": 0.9, "unlock": 0.4},
                    cancel_refs=["run", "live", "live", "stale"])
     return SimEngine(
         "C14",
